@@ -16,7 +16,8 @@ from pathlib import Path
 V = Path(__file__).resolve().parent.parent
 SEEDED = V / "seeded"
 REPO = "/repo"
-WT = "/tmp/sdsv-wt/VERIFY"       # scratch worktree the patches are applied to (never /repo while sub-agents read it)
+# scratch worktree the patches are applied to (never /repo); --wt=<path> lets several instances run side by side
+WT = next((a.split("=", 1)[1] for a in sys.argv[1:] if a.startswith("--wt=")), "/tmp/sdsv-wt/VERIFY")
 PY = "/venv/bin/python"
 
 
@@ -44,7 +45,10 @@ def benign():
     sh(["git", "-C", WT, "checkout", "-q", "--", "."])
     sh(["git", "-C", WT, "checkout", "-q", "--detach", sh(["git", "-C", REPO, "rev-parse", "HEAD"]).stdout.strip()])
     out = {}
+    names = [a for a in sys.argv[1:] if not a.startswith("--")]
     for pf in sorted((V / "benign").glob("*.patch")):
+        if names and pf.stem not in names:
+            continue
         if sh(["git", "-C", WT, "apply", str(pf)]).returncode != 0:
             print(pf.name, "does not apply")
             continue
@@ -54,7 +58,8 @@ def benign():
             sh(["git", "-C", WT, "checkout", "--", "."])
         out[pf.stem] = {c: r for c, r in res.items() if r["rc"] != 0}
         print(pf.stem, "alarms:", {c: (r["rc"], r["violations"][:2], r["machinery"][:1]) for c, r in out[pf.stem].items()})
-    (V / "benign" / "result.json").write_text(json.dumps(out, indent=1, sort_keys=True))
+    for name, res in out.items():
+        (V / "benign" / f"{name}.result.json").write_text(json.dumps({"checks_run": only, "alarms": res}, indent=1, sort_keys=True))
 
 
 def main():
